@@ -269,7 +269,7 @@ CHECKS = {
         assumptions=HIST_ASSUME + ["'accepted' mutations are read conservatively: library-internal-key mutations may or may not be counted",
                                    "GET /states/offset is served from the same GetOffsets() map that C04 checks at every step (HTTP layer not exercised in quick)"],
         units=[rapid("TestC16_Metrics", 4000, 300000)],
-        min_share=dict(any={"high_below_tracked": ["histories", 0.3], "scrape_after_rebalance": ["histories", 0.2], "scrape_while_closed": ["histories", 0.1]}),
+        min_share=dict(any={"high_below_tracked": ["histories", 0.3], "scrape_after_rebalance": ["histories", 0.2], "scrape_while_closed": ["histories", 0.1], "scraped_through_http_api": ["histories", 0.005]}),
     ),
     "C17": dict(
         level="exploration",
@@ -414,7 +414,8 @@ _MORE = {
     "C15": "Later additions: fault classes end_during_open, partial_load, file_dump {partial, corrupt, isdir, notdir}, seq_omit (a successful "
            "sequence-number query without an entry for an assigned vBucket).",
     "C16": "Later additions: scrapes from inside the lifecycle callbacks ASStop / BSStop / ARS / BRE / BSStart of a rebalance; a third of the "
-           "histories with dcp.listener.skipUntil (dropped events are not 'accepted').",
+           "histories with dcp.listener.skipUntil (dropped events are not 'accepted'); a share of the histories scrapes through the real HTTP API "
+           "(child process: GET /metrics parsed from the exposition text instead of Collect(), GET /states/offset compared with the tracked positions).",
     "C17": "Later additions: zero-padded numbers in plain and unit spellings.",
     "C18": "Later additions: a version text the parser itself rejects, a reply without the field, an error document: the client must not start.",
     "C19": "Later additions: slow pings (a round longer than five retry waits); failure kinds plain error / deadline exceeded / canceled / "
